@@ -43,9 +43,8 @@ theorem ff_string_ok_iff {z : List Nat} (hz : z.length = 4) (s : String) :
   generalize ffl_Element_SetString = F
   as_aux_lemma =>
     beta_reduce
-    cases h : G z s
-    · exact ⟨fun h' => by simp [Go.req, h, HasFail.fail] at h', fun h' => by cases h'⟩
-    · rw [req_of h]; exact ⟨fun _ => rfl, fun _ => rfl⟩
+    rw [req_eq_true_iff]
+    exact ⟨fun h => h.1, fun h => ⟨h, rfl⟩⟩
 
 theorem ff_bigIntPtr_ok {z : List Nat} (hz : z.length = 4) (v : Int) :
     ffl_Element_SetInterface_case_ptr_big_Int_ok z v = true := by
